@@ -35,6 +35,8 @@ ALL_OPS = ["CreateBucket", "DeleteBucket", "PutVersioning", "PutObject", "PutObj
 RACE_OPS_QUICK = ["PutVersioning", "PutObject", "PutObjectCond", "DeleteObject", "AppendObject", "GetObject"]
 RACE_OPS_FULL = ["PutVersioning", "PutObject", "PutObjectCond", "DeleteObject", "DeleteObjectCond", "AppendObject", "GetObject",
                  "ListObjects"]
+READ_OPS = ["GetObject", "HeadObject", "GetObjectTagging", "ListParts", "ListObjects", "ListObjectVersions", "HeadBucket",
+            "GetVersioning", "ListMultipartUploads", "GetWebsite", "GetCORS", "GetLifecycle", "GetNotification", "ListBuckets"]
 BATCH = 150      # schedules per driver process (the driver runs with the collector off, see its main.go)
 
 
@@ -49,7 +51,7 @@ def compact(p):
         if s["a"] == "Invoke":
             st["call"] = s["call"]
         steps.append(st)
-    return {"steps": steps, "taken": p.get("taken", []), "bad": bool(p.get("bad"))}
+    return {"steps": steps, "taken": p.get("taken", []), "bad": bool(p.get("bad")), "heldskip": bool(p.get("heldskip"))}
 
 
 def gen_walks(ctx, clients, n, freeops, seed, prefix="bucket"):
@@ -71,11 +73,12 @@ def gen_walks(ctx, clients, n, freeops, seed, prefix="bucket"):
     return out
 
 
-def gen_pairs(ctx, ops, stride, offset, bad_only=False):
+def gen_pairs(ctx, ops, stride, offset, bad_only=False, extra=None):
     """BFS: every interleaving (to quiescence) of every stride-th pair of calls on one key after the prefix."""
-    r = ctx.tlc("StorageOutboxGen", "StorageOutbox.Race.cfg", workers=1, timeout=1500, count_mc=False,
-                subst={"CallOps": tla_set(ops), "Stride": str(stride), "Offset": str(offset),
-                       "EmitBadOnly": "TRUE" if bad_only else "FALSE", "Deviations": ctx.deviations("D-C21")})
+    subst = {"CallOps": tla_set(ops), "Stride": str(stride), "Offset": str(offset),
+             "EmitBadOnly": "TRUE" if bad_only else "FALSE", "Deviations": ctx.deviations("D-C21")}
+    subst.update(extra or {})
+    r = ctx.tlc("StorageOutboxGen", "StorageOutbox.Race.cfg", workers=1, timeout=1500, count_mc=False, subst=subst)
     if r.outcome != "ok":
         raise vlib.Infra("pair-interleaving generation failed: %s\n%s" % (r.outcome, r.output[-2000:]))
     ctx.transitions += r.generated
@@ -110,7 +113,10 @@ def validate(ctx, lines, name):
 def run(ctx):
     rng = random.Random(ctx.seed)
     # ------------------------------------------------------------------ 1. the design holds (MC)
-    for cfg in ctx.pick(["MCq", "MCverq", "MCbucketq"], ["MC", "MCver", "MCbucket", "MCrestart", "MC4ops", "MC2keys"]):
+    # (the design-level model checks do not depend on the code under test; VERIF_SKIP_MC=1 skips them when the same
+    # specification is checked against many trees in a row)
+    for cfg in ([] if os.environ.get("VERIF_SKIP_MC") else
+                ctx.pick(["MCq", "MCverq", "MCbucketq"], ["MC", "MCver", "MCbucket", "MCrestart", "MC2workers", "MC4ops", "MC2keys"])):
         ctx.mc("StorageOutbox", "StorageOutbox.%s.cfg" % cfg, workers=ctx.pick(4, 8), timeout=3000)
     open_tags = [t for t in (TAG_SYNC, TAG_VER) if t in ctx.open_tags()]
     if ctx.tier == "thorough":
@@ -132,7 +138,7 @@ def run(ctx):
     good = [p for p in pairs if not p["bad"]]
     rng.shuffle(bad)
     rng.shuffle(good)
-    nbad, ngood = ctx.pick((16, 56), (300, 800))
+    nbad, ngood = ctx.pick((14, 40), (300, 800))
     sel = bad[:nbad] + good[:ngood]
     ctx.log("pair interleavings: %d complete schedules generated (%d leave the model of the code unconverged), %d selected"
             % (len(pairs), len(bad), len(sel)))
@@ -149,8 +155,52 @@ def run(ctx):
             for p in w[:4]:
                 p["kind"] = "witness"
             scheds += w[:4]
+    # (c) every read the outbox wraps, started while a write of the same bucket is queued: all interleavings of
+    #     (queued put / delete, read) pairs; per read operation a few schedules in which the read's drain snapshot
+    #     is taken while the entry is pending
+    rd, _ = gen_pairs(ctx, ["PutObject", "DeleteObject"] + READ_OPS, 1, 0,
+                      extra={"PairMode": '"write-read"', "Blobs": '{"c2"}', "MaxFailPolls": "1"})
+    per = {}
+    for p in rd:
+        st = p["steps"]
+        reader = [x["p"] for x in st if x["a"] == "Invoke" and x["call"]["op"] in READ_OPS]
+        if not reader:
+            continue
+        rdr, rop = reader[-1], [x["call"]["op"] for x in st if x["a"] == "Invoke" and x["call"]["op"] in READ_OPS][-1]
+        pend, hit = 0, False
+        for x in st[11:]:
+            if x["a"] == "Enqueue":
+                pend += 1
+            elif x["a"] == "Finalize":
+                pend -= 1
+            elif x["a"] == "DrainStart" and x["p"] == rdr and pend > 0:
+                hit = True
+        if hit:
+            per.setdefault(rop, []).append(p)
+    nper = ctx.pick(2, 12)
+    for rop in READ_OPS:
+        cands = per.get(rop, [])
+        if not cands:
+            raise vlib.Infra("no generated schedule starts %s while an entry of its bucket is queued" % rop)
+        rng.shuffle(cands)
+        for p in cands[:nper]:
+            p["kind"] = "reads"
+            scheds.append(p)
+    # (d) two claim owners (a second outbox instance on the same database and outbox id): the oldest entry is held
+    #     by one worker while the other one runs a pass with a younger entry queued
+    tw, _ = gen_pairs(ctx, ["PutObject", "DeleteObject"], 1, 0,
+                      extra={"Workers": '{"w", "w2"}', "Blobs": '{"c2"}', "MaxFailPolls": "0", "MaxFailClaims": "1"})
+    held = [p for p in tw if p["heldskip"]]
+    other = [p for p in tw if not p["heldskip"] and any(x["p"] == "w2" for x in p["steps"])]
+    if not held:
+        raise vlib.Infra("no generated two-worker schedule has a pass against a held head entry with a younger entry queued")
+    rng.shuffle(held)
+    rng.shuffle(other)
+    for p in held[:ctx.pick(5, 60)] + other[:ctx.pick(3, 60)]:
+        p["kind"] = "workers"
+        scheds.append(p)
     # (a) long single-client histories with the worker flushing at generated points; concurrent random walks
-    n1, n3 = ctx.pick((10, 16), (120, 250))
+    n1, n3 = ctx.pick((10, 12), (120, 250))
     for p in gen_walks(ctx, ["c1"], n1, ctx.pick(10, 14), ctx.seed):
         p["kind"] = "walk1"
         scheds.append(p)
@@ -297,8 +347,34 @@ def run(ctx):
                     concurrent.add(ln["prog"])
             if ln["ev"] == "Return":
                 active.discard(ln["p"])
+    # coverage gate: every read the outbox wraps took its drain snapshot at least once while an entry of the same
+    # bucket was queued, and a worker ran a pass against a head entry held by the other claim owner
+    pending_reads, held_pass = {}, 0
+    for pr in progs:
+        pend, cur = {}, {}
+        for i, ln in enumerate(pr):
+            ev = ln["ev"]
+            if ev == "Invoke":
+                cur[ln["p"]] = ln["call"]["op"]
+            elif ev == "Enqueue":
+                pend[ln["eseq"]] = ln["b"]
+            elif ev == "Finalize" and ln.get("deleted"):
+                pend.pop(ln["eseq"], None)
+            elif ev == "DrainStart" and cur.get(ln["p"]) in READ_OPS:
+                if any(ln["scope"] == "global" or b == ln["b"] for b in pend.values()):
+                    pending_reads[cur[ln["p"]]] = pending_reads.get(cur[ln["p"]], 0) + 1
+            elif ev == "Claim" and not ln["claimed"] and len(pend) >= 2:
+                held_pass += 1
+    ctx.extra["reads_started_with_pending_entry"] = pending_reads
+    ctx.extra["passes_against_held_head"] = held_pass
+    if not ctx.violations:
+        lacking = [o for o in READ_OPS if not pending_reads.get(o)]
+        if lacking:
+            raise vlib.Infra("reads never started on the real code while an entry of their bucket was queued: %s" % lacking)
+        if not held_pass:
+            raise vlib.Infra("no worker pass against a held head entry was executed on the real code")
     ctx.extra["events_by_kind"] = evs
-    ctx.extra["schedules_by_kind"] = {k: sum(1 for p in scheds if p["kind"] == k) for k in ("pairs", "witness", "walk1", "walk3")}
+    ctx.extra["schedules_by_kind"] = {k: sum(1 for p in scheds if p["kind"] == k) for k in ("pairs", "witness", "reads", "workers", "walk1", "walk3")}
     ctx.extra["schedules_by_kind"]["free"] = nfree
     ctx.extra["schedules_with_a_real_wait"] = len(waited)
     ctx.extra["schedules_with_concurrent_calls"] = len(concurrent)
